@@ -66,6 +66,7 @@ class FnTarget:
         self.omit = False
         self.canary = True
         self.opt_member = False  # `//@ fn? NAME`: the member may be absent from the impl/trait (skipped + recorded)
+        self.tfe = None        # R18: (ghost iterator name or None, invariant text) for `RECV.iter().try_for_each(|p| body)` in tail position
         self.attrs = None      # `//@ fn-prefix`: attribute text put before this fn (e.g. #[verifier::when_used_as_spec(..)])
 
 
@@ -92,6 +93,9 @@ class Block:
         self.params_to_let_all = False  # R8 for every fn of the block
         self.let_chains_all = False  # R16 for every fn of the block
         self.impl_to_generic = False  # R11: `x: &impl Trait` parameters become a named type parameter
+        self.sized = False     # R17: `trait X<..>` emitted as `trait X<..>: Sized` (no unsized implementor / trait object in the crate)
+        self.let_chain = False  # R16: `if let P = E && C { B }` (no else) written as nested ifs
+        self.instantiate = None  # R15: (generics, {param: type}, where) -- a blanket impl emitted at given type arguments
         self.as_spec = None    # R10: emit the selected fn a second time as `pub closed spec fn <as_spec>` (its spec twin)
 
 
@@ -226,6 +230,8 @@ class Assembler:
                         tgt.loop_parts[(cur_field[1], cur_field[2])] = text
                     elif kind == 'tail':
                         tgt.tail = text
+                    elif kind == 'tfe':
+                        tgt.tfe = (cur_field[1], text)
                     elif kind == 'closure':
                         tgt.closures[cur_field[1]] = text
                     elif kind == 'tfe':
@@ -429,6 +435,66 @@ class Assembler:
                             # `//@ eta Path::f -> (r: T) ensures ..`: the text after the path is the contract of the closure
                             # the expansion introduces: `f(|eta_x| -> (r: T) ensures .. { Path::f(eta_x) })`
                             blk.eta.append(d[4:].strip())
+                        elif d.startswith('instantiate '):
+                            # R15 (opt-in, whole impl block): a generic (blanket) impl is emitted INSTANTIATED at the given type
+                            # arguments: `//@ instantiate <Q> | P = Deep<Q> | T = StatementPos | where Q: Visitor<Statement>`
+                            # -- the generics list of the impl header is replaced by `<Q>`, its where clause by the given one, and
+                            # every occurrence of a substituted type parameter in the header and the body by its argument; no other
+                            # token changes.  That is the definition of instantiating a generic item; rustc checks that the
+                            # instance is well-typed (the bounds of the real impl must hold for the arguments, or the calls of
+                            # the body do not resolve).  Verus rejects recursion that passes a trait impl to a blanket impl as a
+                            # dictionary ("cyclic self-reference"); on the instances the same calls are ordinary static recursion.
+                            parts_ = [x.strip() for x in d[len('instantiate '):].split(' | ')]
+                            gen_, subst_, where_ = parts_[0], {}, ''
+                            if not (gen_.startswith('<') and gen_.endswith('>')):
+                                raise UnitSyntax('line %d: instantiate needs the new generics list first (`<>` for none)' % (i + 1))
+                            for p_ in parts_[1:]:
+                                if p_.startswith('where ') or p_ == 'where':
+                                    where_ = p_
+                                elif '=' in p_:
+                                    a_, b_ = p_.split('=', 1)
+                                    subst_[a_.strip()] = b_.strip()
+                                else:
+                                    raise UnitSyntax('line %d: bad instantiate part %r' % (i + 1, p_))
+                            blk.instantiate = (gen_, subst_, where_)
+                        elif d in ('try-for-each-to-loop', 'try-for-each-to-loop?') or d.startswith('try-for-each-to-loop ') or d.startswith('try-for-each-to-loop? '):
+                            # R18 (opt-in, per fn target; the lines that follow are the loop annotation, `iter=NAME` names the ghost
+                            # iterator): the TAIL expression `RECV.iter().try_for_each(|PAT| BODY)` of the fn is written by the
+                            # definition of Iterator::try_for_each for a Result:
+                            #     for PAT in [NAME:] RECV.iter() <annotation> { (BODY)?; } Ok(())
+                            # (stops at the first Err and returns it, otherwise Ok(()); in tail position the `?` returns exactly that
+                            # error from the fn, whose error type is the closure's -- the original would not type-check otherwise).
+                            # vstd has no specification for the adapter and Verus rejects the closure that borrows `self` mutably.
+                            # Anchor lost when the fn has no such tail expression.
+                            # `try-for-each-to-loop?`: when the fn no longer ends in such a call the rewrite is skipped (recorded) and the
+                            # contract of the fn decides, instead of ending anchor-lost
+                            opts_ = d[len('try-for-each-to-loop'):].split()
+                            if opts_ and opts_[0] == '?':
+                                opts_ = opts_[1:]
+                                blk.cur.optional.add(('tfe',))
+                            elif d.startswith('try-for-each-to-loop?'):
+                                opts_ = d[len('try-for-each-to-loop?'):].split()
+                                blk.cur.optional.add(('tfe',))
+                            nm_ = None
+                            for opt in opts_:
+                                if not re.match(r'^iter=[A-Za-z_]\w*$', opt):
+                                    raise UnitSyntax('line %d: bad try-for-each-to-loop option %r' % (i + 1, opt))
+                                nm_ = opt[5:]
+                            cur_field = ('tfe', nm_)
+                        elif d == 'supertrait-sized':
+                            # R17 (opt-in, trait block): the trait is emitted with the supertrait `Sized`.  A ghost `spec fn` member whose
+                            # result mentions `Self` by value (the state of a visitor AFTER a call) needs it; refused (anchor lost) when
+                            # the crate names the trait as a trait object (`dyn NAME`) or relaxes an implementor with `?Sized` next to it:
+                            # then every implementor is a sized type and the bound holds for each of them -- no call changes meaning.
+                            blk.sized = True
+                        elif d == 'let-chain-to-nested-if':
+                            # R16 (opt-in, per block): an `if` WITHOUT `else` whose condition is a let-chain, `if A && B && C { BODY }`
+                            # with at least one `let PAT = EXPR` among A, B, C, is written as the nested ifs `if A { if B { if C { BODY } } }`
+                            # -- the definition of a let-chain when there is no else branch (left to right, short-circuit, the bindings
+                            # of a `let` in scope of everything after it).  Verus: "does not yet support ... let expressions".
+                            # Only the `&&` tokens at nesting depth 0 of the condition are replaced (by ` { if `) and the closing braces
+                            # added after the body; an `if` with an `else` is refused (anchor lost).
+                            blk.let_chain = True
                         elif d == 'enumerate-to-counter':
                             # R14 (opt-in): `for (IDX, PAT) in EXPR.enumerate() { BODY }` is written out with an explicit counter:
                             # `let mut __rbv_enum_N: usize = 0; for PAT in EXPR { let IDX = __rbv_enum_N; BODY __rbv_enum_N += 1; }`
@@ -567,7 +633,7 @@ class Assembler:
                 # is written in the tree (a contract that survives the renaming of a parameter, `_dim_list` -> `dim_list`)
                 tgt.params_resolved = True
                 used = [bool(x and re.search(r'\$\d', x)) for x in
-                        [tgt.spec, tgt.head, tgt.tail] + list(tgt.loops.values()) + [h[1] for h in tgt.hints]]
+                        [tgt.spec, tgt.head, tgt.tail, (tgt.tfe[1] if tgt.tfe else None)] + list(tgt.loops.values()) + [h[1] for h in tgt.hints]]
                 if any(used):
                     names = self._param_names(src, fn_item)
 
@@ -582,6 +648,8 @@ class Assembler:
                     tgt.spec, tgt.head, tgt.tail = _res(tgt.spec), _res(tgt.head), _res(tgt.tail)
                     tgt.loops = {k_: _res(v_) for k_, v_ in tgt.loops.items()}
                     tgt.hints = [(a_, _res(b_), c_) for (a_, b_, c_) in tgt.hints]
+                    if tgt.tfe:
+                        tgt.tfe = (tgt.tfe[0], _res(tgt.tfe[1]))
                     self.rewrites.append('P %s fn %s: $N in the spliced text = parameter names %s' % (blk.relpath, fn_item.name, names))
             if tgt and tgt.attrs:
                 edits.append((fn_item.kw_start, fn_item.kw_start, tgt.attrs.strip() + '\n'))
@@ -633,6 +701,15 @@ class Assembler:
                 # last statement(s) of the body; only meaningful for a fn whose body does not end in a value
                 # expression (otherwise Verus rejects the file -> UNDECIDED, never a silent change)
                 edits.append((st[b].start, st[b].start, '\n' + tgt.tail + '\n'))
+            if blk.let_chain:
+                self._let_chain_edits(src, blk, fn_item, edits)
+            if tgt and tgt.tfe is not None:
+                try:
+                    self._try_for_each_edits(src, blk, fn_item, tgt, edits)
+                except AnchorLost as e_:
+                    if ('tfe',) not in tgt.optional:
+                        raise
+                    self.dropped.append('O %s fn %s: %s -- optional rewrite skipped' % (blk.relpath, fn_item.name, e_))
             # loops, closures, R1, R2 inside the body
             k = a + 1
             loop_no = 0
@@ -1146,6 +1223,14 @@ class Assembler:
         elif item.kind in ('impl', 'trait', 'mod'):
             # (a `mod` is treated like an impl: its fns can be addressed with `//@ fn NAME`)
             strip_attrs(item)
+            if blk.sized:
+                if item.kind != 'trait':
+                    raise UnitSyntax('line %d: supertrait-sized needs a trait selector' % blk.vu_line)
+                self._sized_edits(src, blk, item, edits)
+            if blk.instantiate:
+                if item.kind != 'impl':
+                    raise UnitSyntax('line %d: instantiate needs an impl selector' % blk.vu_line)
+                self._instantiate_edits(src, blk, item, edits)
             for ch in src.children(item):
                 if ch.kind == 'fn':
                     tgt = blk.fns.get(ch.name)
@@ -1217,6 +1302,218 @@ class Assembler:
         self.pieces.append(Piece('\n', blk.relpath, None))
         for w in wrap:
             self.pieces.append(Piece('}\n', blk.relpath, None))
+
+    def _try_for_each_edits(self, src, blk, fn_item, tgt, edits):
+        """R18: tail expression `RECV.iter().try_for_each(|PAT| BODY)` -> `for PAT in RECV.iter() { (BODY)?; } Ok(())`"""
+        st = src.st
+        text = src.text
+        a, b = fn_item.st_body
+        # the call must close right before the `}` of the fn body
+        if st[b - 1].text != ')':
+            raise AnchorLost('R18: fn %s does not end in a call (%s)' % (fn_item.name, blk.relpath))
+        # find the matching '(' of the last ')'
+        depth, k = 0, b - 1
+        while k > a:
+            tx = st[k].text if st[k].kind == 'punct' else ''
+            if tx in (')', ']', '}'):
+                depth += 1
+            elif tx in ('(', '[', '{'):
+                depth -= 1
+                if depth == 0:
+                    break
+            k -= 1
+        p_open = k
+        if not (st[p_open - 1].text == 'try_for_each' and st[p_open - 2].text == '.' and st[p_open - 3].text == ')'
+                and st[p_open - 4].text == '(' and st[p_open - 5].text == 'iter' and st[p_open - 6].text == '.'):
+            raise AnchorLost('R18: the tail expression of fn %s is not `RECV.iter().try_for_each(..)` (%s)' % (fn_item.name, blk.relpath))
+        # the closure `|PAT| BODY`
+        if st[p_open + 1].text != '|':
+            raise AnchorLost('R18: try_for_each of fn %s is not given a closure (%s)' % (fn_item.name, blk.relpath))
+        q = p_open + 2
+        d2 = 0
+        while not (st[q].text == '|' and d2 == 0):
+            if st[q].kind == 'punct' and st[q].text in '([{':
+                d2 += 1
+            elif st[q].kind == 'punct' and st[q].text in ')]}':
+                d2 -= 1
+            q += 1
+        pat = text[st[p_open + 2].start:st[q - 1].end] if q > p_open + 2 else '_'
+        body_s, body_e = st[q + 1].start, st[b - 2].end
+        # the receiver: from the start of the tail expression (after the last `;` at depth 0 of the body, or the body start)
+        r0 = a + 1
+        d3 = 0
+        for j in range(a + 1, p_open - 6):
+            tj = st[j]
+            if tj.kind == 'punct' and tj.text in '([{':
+                d3 += 1
+            elif tj.kind == 'punct' and tj.text in ')]}':
+                d3 -= 1
+                if d3 == 0 and tj.text == '}':
+                    r0 = j + 1
+            elif d3 == 0 and tj.kind == 'punct' and tj.text == ';':
+                r0 = j + 1
+        if r0 > p_open - 7:
+            raise AnchorLost('R18: no receiver for .iter().try_for_each in fn %s (%s)' % (fn_item.name, blk.relpath))
+        nm, ann = tgt.tfe
+        recv = text[st[r0].start:st[p_open - 4 + 1].end]          # RECV.iter()
+        edits.append((st[r0].start, st[r0].start, 'for %s in %s' % (pat, (nm + ': ') if nm else '')))
+        # RECV.iter() stays verbatim; `.try_for_each(|PAT|` is replaced by the annotation and `{ (`
+        edits.append((st[p_open - 2].start, st[q].end, '\n' + (ann or '') + '\n{ ('))
+        edits.append((st[b - 1].start, st[b - 1].end, ')?; }\nOk(())'))
+        self.rewrites.append('R18 %s:%d tail expression `%s.try_for_each(|%s| ..)` of fn %s written as a for loop with `?`'
+                             % (blk.relpath, src.line_of(st[r0].start), ' '.join(recv.split()), ' '.join(pat.split()), fn_item.name))
+
+    def _sized_edits(self, src, blk, item, edits):
+        """R17: `trait NAME<..> {` -> `trait NAME<..>: Sized {` after checking that the crate has no `dyn NAME` / `NAME<..> + ?Sized`"""
+        st = src.st
+        i0 = next(i for i, t in enumerate(st) if t.start >= item.kw_start and t.text == 'trait')
+        name = st[i0 + 1].text
+        crate_dir = os.path.join(self.repo, blk.relpath.split('/')[0])
+        pat = re.compile(r'\bdyn\s+(?:\w+::)*%s\b|\b%s\s*(?:<[^;{}]*?>)?\s*\+\s*\?Sized' % (re.escape(name), re.escape(name)))
+        for root, _dirs, files in os.walk(crate_dir):
+            if os.sep + 'target' in root:
+                continue
+            for fn in files:
+                if fn.endswith('.rs'):
+                    try:
+                        txt = open(os.path.join(root, fn)).read()
+                    except OSError:
+                        continue
+                    if pat.search(txt):
+                        raise AnchorLost('R17: trait %s is used unsized in %s' % (name, os.path.join(root, fn)))
+        b_open = item.st_body[0]
+        k = i0 + 2
+        if st[k].text == '<':
+            depth = 0
+            while True:
+                if st[k].text == '<':
+                    depth += 1
+                elif st[k].text == '>':
+                    depth -= 1
+                    if depth == 0:
+                        break
+                k += 1
+            k += 1
+        if st[k].text == ':':
+            edits.append((st[k].end, st[k].end, ' Sized +'))
+        else:
+            edits.append((st[k].start, st[k].start, ': Sized '))
+        self.rewrites.append('R17 %s:%d trait %s emitted with the supertrait Sized (no `dyn %s` / `?Sized` use in the crate)'
+                             % (blk.relpath, src.line_of(item.start), name, name))
+
+    def _let_chain_edits(self, src, blk, fn_item, edits):
+        """R16: `if A && B { BODY }` (no else) with a `let` in the chain -> `if A { if B { BODY } }`"""
+        st = src.st
+        a, b = fn_item.st_body
+        k = a + 1
+        while k < b:
+            t = st[k]
+            if not (t.kind == 'ident' and t.text == 'if'):
+                k += 1
+                continue
+            # the condition runs to the first `{` at bracket depth 0
+            depth, j = 0, k + 1
+            while j < b:
+                tx = st[j].text if st[j].kind == 'punct' else ''
+                if tx in ('(', '['):
+                    depth += 1
+                elif tx in (')', ']'):
+                    depth -= 1
+                elif tx == '{' and depth == 0:
+                    break
+                j += 1
+            if j >= b:
+                break
+            cond = range(k + 1, j)
+            has_let = False
+            ands = []
+            depth = 0
+            for q in cond:
+                tq = st[q]
+                if tq.kind == 'punct' and tq.text in '([':
+                    depth += 1
+                elif tq.kind == 'punct' and tq.text in ')]':
+                    depth -= 1
+                elif depth == 0 and tq.kind == 'ident' and tq.text == 'let':
+                    has_let = True
+                elif (depth == 0 and tq.kind == 'punct' and tq.text == '&' and q + 1 < j and st[q + 1].text == '&'
+                      and st[q + 1].start == tq.end and st[q - 1].text not in ('=', '(', ',', '&', '[', '|', 'let', 'if')
+                      and (not ands or ands[-1] != q - 1)):
+                    ands.append(q)
+            if has_let and ands:
+                jc = match_close(st, j)
+                if jc + 1 < len(st) and st[jc + 1].kind == 'ident' and st[jc + 1].text == 'else':
+                    raise AnchorLost('R16: the let-chain `if` at line %d of %s has an else branch' % (src.line_of(t.start), blk.relpath))
+                if st[k - 1].kind == 'ident' and st[k - 1].text == 'else':
+                    raise AnchorLost('R16: the let-chain `if` at line %d of %s is an else-if' % (src.line_of(t.start), blk.relpath))
+                for q in ands:
+                    edits.append((st[q].start, st[q + 1].end, '{ if'))
+                edits.append((st[jc].end, st[jc].end, ' }' * len(ands)))
+                self.rewrites.append('R16 %s:%d let-chain `if` without else written as %d nested ifs'
+                                     % (blk.relpath, src.line_of(t.start), len(ands) + 1))
+            k += 1
+
+    def _instantiate_edits(self, src, blk, item, edits):
+        """R15: emit a generic impl instantiated at given type arguments (see the `instantiate` directive)"""
+        gen, subst, where = blk.instantiate
+        st = src.st
+        i0 = next(i for i, t in enumerate(st) if t.start >= item.kw_start and t.text == 'impl')
+        if item.st_body is None:
+            raise AnchorLost('impl without a body cannot be instantiated (%s)' % blk.relpath)
+        b_open, b_close = item.st_body
+        skip = set()
+        # the generics list `<..>` right after `impl`
+        if st[i0 + 1].text == '<':
+            depth, k = 0, i0 + 1
+            while True:
+                if st[k].text == '<':
+                    depth += 1
+                elif st[k].text == '>' and st[k - 1].text != '-':
+                    depth -= 1
+                    if depth == 0:
+                        break
+                k += 1
+                if k >= b_open:
+                    raise AnchorLost('unbalanced generics in impl header (%s)' % blk.relpath)
+            declared = [t.text for t in st[i0 + 2:k] if t.kind == 'ident']
+            for p in subst:
+                if p not in declared:
+                    raise AnchorLost('impl header has no type parameter %s to instantiate (%s)' % (p, blk.relpath))
+            edits.append((st[i0 + 1].start, st[k].end, '' if gen == '<>' else gen))
+            skip.update(range(i0 + 1, k + 1))
+        else:
+            raise AnchorLost('impl header has no generics to instantiate (%s)' % blk.relpath)
+        # the where clause of the header (angle/bracket depth 0)
+        w = None
+        depth = 0
+        for k in range(i0 + 1, b_open):
+            if k in skip:
+                continue
+            tx = st[k].text
+            if tx in '<([':
+                depth += 1
+            elif tx in ')]' or (tx == '>' and st[k - 1].text != '-'):
+                depth -= 1
+            elif tx == 'where' and depth == 0:
+                w = k
+                break
+        if w is not None:
+            edits.append((st[w].start, st[b_open].start, (where + ' ') if where else ''))
+            skip.update(range(w, b_open))
+        elif where:
+            edits.append((st[b_open].start, st[b_open].start, where + ' '))
+        # every other occurrence of a substituted parameter (not a field / method name after `.`)
+        n = 0
+        for k in range(i0 + 1, b_close):
+            if k in skip:
+                continue
+            t = st[k]
+            if t.kind == 'ident' and t.text in subst and st[k - 1].text != '.':
+                edits.append((t.start, t.end, subst[t.text]))
+                n += 1
+        self.rewrites.append('R15 %s:%d impl `%s` instantiated at %s (generics %s, %s; %d occurrences substituted)'
+                             % (blk.relpath, src.line_of(item.start), ' '.join(item.header.split()),
+                                ', '.join('%s = %s' % kv for kv in sorted(subst.items())), gen, where or 'no where clause', n))
 
     def _path(self, parents, item):
         names = [p.name for p in parents if p.name] + [item.name or item.kind]
